@@ -556,7 +556,10 @@ fn speed_limit_run(r: &mut Rng, t: usize, em: &mut Emit) {
     let sim = match tsb.make_speed_limit_train_sim(&lm, si, None, None) { Ok(s) => s, Err(e) => { if std::env::var("C19_DEBUG").is_ok() { eprintln!("tsim build: {:#}", e); } return } };
     {
         let tr = tree_tsim(&sim);
-        em.put(format!("tsim/{}/constructed", t), "constructed", &tr, &[], Ok((&tr, 0, String::new())), &tags, chk_propagated(&tr, "SpeedLimitTrainSim built with a save interval"), false, json!({"interval": si}));
+        // a unit that was deliberately advanced before the build keeps its own counter: only the interval clause applies
+        let mut f = chk_propagated(&tr, "SpeedLimitTrainSim built with a save interval");
+        if misaligned { f.retain(|m| !m.contains("step counters start misaligned")); }
+        em.put(format!("tsim/{}/constructed", t), "constructed", &tr, &[], Ok((&tr, 0, String::new())), &tags, f, false, json!({"interval": si}));
     }
     let mut s = Slts { sim, network, timed: None, t0: 0.0 };
     if want_err { tags.push(if timed { "setup:steep_descent_on_a_later_link" } else { "setup:weak_brakes_steep_descent" }.to_string()); }
@@ -589,24 +592,25 @@ fn speed_limit_run(r: &mut Rng, t: usize, em: &mut Emit) {
     else { drive_manual(r, format!("tsim/{}", t), &mut s, 400, &tags, em, extra); }
 }
 
-/// after a constructor that takes a save interval: every nested object carries the top-level interval
+/// after a constructor that takes a save interval: every nested object carries the top-level interval and the
+/// step counters of all nested objects start aligned with the top-level one
 fn chk_propagated(t: &Tree, what: &str) -> Vec<String> {
     let ns = t.nodes(); let top = ns[0];
+    let mut f = vec![];
     let bad: Vec<&&Node> = ns.iter().filter(|n| n.si != top.si).collect();
-    if bad.is_empty() { vec![] } else {
-        vec![format!("{}: nested objects ({} of them, e.g. {}) have save interval {:?} but the top level has {:?}", what, bad.len(), bad[0].name, bad[0].si, top.si)]
+    if !bad.is_empty() {
+        f.push(format!("{}: nested objects ({} of them, e.g. {}) have save interval {:?} but the top level has {:?}", what, bad.len(), bad[0].name, bad[0].si, top.si));
     }
+    let badi: Vec<&&Node> = ns.iter().filter(|n| n.i != top.i).collect();
+    if !badi.is_empty() {
+        f.push(format!("{}: step counters start misaligned: {} nested object(s), e.g. {}, at {} while the top level is at {}", what, badi.len(), badi[0].name, badi[0].i, top.i));
+    }
+    f
 }
 
 /// objects as their `Default`/`valid` constructors hand them out: is the interval propagated?
 fn default_objects(em: &mut Emit) {
-    let chk = |t: &Tree, what: &str| -> Vec<String> {
-        let ns = t.nodes(); let top = ns[0];
-        let bad: Vec<&&Node> = ns.iter().filter(|n| n.si != top.si).collect();
-        if bad.is_empty() { vec![] } else {
-            vec![format!("{}: nested objects ({} of them, e.g. {}) have save interval {:?} but the top level has {:?}", what, bad.len(), bad[0].name, bad[0].si, top.si)]
-        }
-    };
+    let chk = |t: &Tree, what: &str| -> Vec<String> { chk_propagated(t, what) };
     let s = SetSpeedTrainSim::default();
     let t = tree_ssim(&s);
     let mut fails = chk(&t, "SetSpeedTrainSim::default()");
